@@ -170,7 +170,11 @@ theorem C12_gen : Gen.handshakeAnswerHandlers =
       ["\"CEA\"=handleCEA(cli.Handler,nil)", "\"DWA\"=handshakeOK(handleDWA(cli.Handler,nil))"] ∧
     Gen.capErrc = 1 ∧ Gen.ceaHandlerOnce = true ∧
     Gen.handshakeMakeCER = ([], ["cli.makeCER(hostAddresses)"]) ∧ Gen.handshakeWrites = ["m.WriteTo(c)"] ∧
-    Gen.handshakeCloses = (2, 2) ∧ Gen.handshakeLoopCond = "(i<((int(cli.MaxRetransmits)+1)))" := by decide
+    Gen.handshakeCloses = (2, 2) ∧ Gen.handshakeLoopCond = "(i<((int(cli.MaxRetransmits)+1)))" ∧
+    -- the handshake waits RetransmitInterval per transmission, and the state machine package sets
+    -- no deadline on the transport (one left behind would outlive the handshake)
+    Gen.clientTimers.filter (fun t => t.1 = "handshake") = [("handshake", "cli.RetransmitInterval")] ∧
+    Gen.smDeadlineCalls = [] := by decide
 
 /-- non-vacuity: budget 2; silence, silence, then a success CEA: three CERs, two expiries, ok -/
 example : ((cur 2 false).run [.writeOk, .timer, .writeOk, .timer, .writeOk, .cea .success, .takeErrc, .cea .failing, .cea .success]).map
